@@ -1,3 +1,4 @@
+import Hannibal.Props.CancelErrCurrent
 import Hannibal.Props.C11Shape
 import Hannibal.Props.C11TCurrent
 import Hannibal.Proofs.C11TProj
@@ -15,3 +16,5 @@ import Hannibal.Props.C11Current
 #print axioms Hannibal.monC11p_ok_imp_monC11t
 #print axioms Hannibal.monC11p_eq_monC11t_of_noRet
 #print axioms Hannibal.shape11_current
+#print axioms Hannibal.CancelErr_holds
+#print axioms Hannibal.CancelErr_current
